@@ -46,6 +46,8 @@ class FN:
     inst_terms: List[str] = field(default_factory=list)  # terms at which quantified facts of the pc are instantiated
     # exceptional postconditions: (ExcName, expr over the exit state) checked at raise exits, assumed by callers
     on_raise: List[Tuple[str, str]] = field(default_factory=list)
+    # clauses that must hold at EVERY exit, normal or exceptional (shared-state invariants)
+    always: List[Tuple[str, str]] = field(default_factory=list)
 
 
 @dataclass
